@@ -30,7 +30,10 @@ TWO_PI = 2 * math.pi
 #   T-matrix [1.3e-6: ampld nudges every angle by EPS=1e-7 towards pi/2 resp. pi, deterministically]   -> 5e-5
 # a sign / index / argument mutation changes results by >= 1e-2.
 TOL = {"mie": 1e-8, "mie_far": 1e-9, "mie_rad": 1e-9, "layered": 1e-8, "mie_sup": 1e-8, "mielens": 1e-9,
-       "amielens": 1e-9, "multi": 5e-4, "tmatrix": 5e-5, "lens": 1e-8, "lens_grid": 1e-9, "lens_uneq": 1e-8}
+       "amielens": 1e-9, "multi": 5e-4, "tmatrix": 5e-5, "lens": 1e-8, "lens_grid": 1e-9, "lens_uneq": 1e-8,
+       # lens wrapper around non-axisymmetric scatterers, rotations by exact multiples of the azimuthal node spacing:
+       # limited by the inner solver's own covariance [measured 2e-5 / 3e-7]
+       "lens_multi": 2e-3, "lens_tm": 2e-4}
 # Lens with quad_npts_theta != quad_npts_phi is a separate input class with its own finding key
 # (Lens._calc_scattering_matrix reshapes meshgrid output with the two sizes swapped): see the final report.
 UNEQ_KEY = "lens:quad_npts_unequal"
@@ -78,6 +81,10 @@ def build_theory(t):
         return AberratedMieLens(spherical_aberration=t["aberration"], lens_angle=t["lens_angle"])
     if k in ("lens", "lens_grid", "lens_uneq"):
         return Lens(t["lens_angle"], Mie(False, False), quad_npts_theta=t["ntheta"], quad_npts_phi=t["nphi"])
+    if k == "lens_multi":      # lens wrapper around a theory whose scattering matrix depends on the pupil azimuth
+        return Lens(t["lens_angle"], Multisphere(), quad_npts_theta=t["ntheta"], quad_npts_phi=t["nphi"])
+    if k == "lens_tm":
+        return Lens(t["lens_angle"], Tmatrix(), quad_npts_theta=t["ntheta"], quad_npts_phi=t["nphi"])
     raise ValueError(k)
 
 
@@ -110,8 +117,10 @@ def build_detector(d):
     return detector_grid(shape=tuple(d["shape"]), spacing=d["spacing"])
 
 
-def calc(spec_theory, scat, det, optics, want_holo=True):
-    """-> (field (N,3) complex, hologram (N,) or None), in the detector's flattened order"""
+def calc(spec_theory, scat, det, optics, want_holo=True, theory=None):
+    """-> (field (N,3) complex, hologram (N,) or None), in the detector's flattened order.
+    [theory]: a theory OBJECT to use for every call of this case (as a user script does); None = a fresh object
+    per call."""
     import numpy as np
     from holopy.scattering import calc_field, calc_holo
     kw = dict(medium_index=optics["mi"], illum_wavelen=optics["wl"], illum_polarization=tuple(optics["pol"]))
@@ -119,14 +128,14 @@ def calc(spec_theory, scat, det, optics, want_holo=True):
     dt = build_detector(det)
     with warnings.catch_warnings():
         warnings.simplefilter("ignore")
-        f = calc_field(dt, sc, theory=build_theory(spec_theory), **kw)
+        f = calc_field(dt, sc, theory=(theory if theory is not None else build_theory(spec_theory)), **kw)
         E = np.asarray(f.values)
         if E.shape[-1] != 3:
             E = np.moveaxis(E, list(f.dims).index("vector"), -1)
         E = E.reshape(-1, 3)
         H = None
         if want_holo:
-            h = calc_holo(dt, sc, theory=build_theory(spec_theory), **kw)
+            h = calc_holo(dt, sc, theory=(theory if theory is not None else build_theory(spec_theory)), **kw)
             H = np.asarray(h.values).reshape(-1)
     return E, H
 
@@ -191,7 +200,8 @@ def eval_points_case(spec):
     """one exploration case on a point detector.  Returns dict(err_field, err_holo, moved, scale)."""
     import numpy as np
     op = spec["op"]
-    E1, H1 = calc(spec["theory"], spec["scat"], spec["det"], spec["optics"])
+    th = build_theory(spec["theory"]) if spec.get("reuse") else None
+    E1, H1 = calc(spec["theory"], spec["scat"], spec["det"], spec["optics"], theory=th)
     pol = spec["optics"]["pol"]
     if spec["theory"]["kind"] == "tmatrix":
         # polarisation stays (1,0); T(pol) = sgn * pol for the admitted operations, the field is odd in pol
@@ -203,7 +213,7 @@ def eval_points_case(spec):
         sgn = 1.0
         pol2 = list(op_vec(op, tuple(pol)))
     E2, H2 = calc(spec["theory"], op_scatterer(op, spec["scat"]), op_detector(op, spec["det"]),
-                  dict(spec["optics"], pol=pol2))
+                  dict(spec["optics"], pol=pol2), theory=th)
     pred = np.array([op_vec(op, tuple(e)) for e in E1]) * sgn
     scale = float(np.abs(E1).max())
     ef = float(np.abs(E2 - pred).max() / scale)
@@ -220,8 +230,9 @@ def eval_grid_shift_case(spec):
     sp = spec["det"]["spacing"]
     nx, ny = spec["det"]["shape"]
     op = dict(kind="shift", d=[m * sp, n * sp])
-    E1, H1 = calc(spec["theory"], spec["scat"], spec["det"], spec["optics"])
-    E2, H2 = calc(spec["theory"], op_scatterer(op, spec["scat"]), spec["det"], spec["optics"])
+    th = build_theory(spec["theory"]) if spec.get("reuse") else None
+    E1, H1 = calc(spec["theory"], spec["scat"], spec["det"], spec["optics"], theory=th)
+    E2, H2 = calc(spec["theory"], op_scatterer(op, spec["scat"]), spec["det"], spec["optics"], theory=th)
     E1 = E1.reshape(nx, ny, 3)
     E2 = E2.reshape(nx, ny, 3)
     H1 = H1.reshape(nx, ny)
@@ -311,14 +322,14 @@ def gen_points(rng, centre, rmin, rmax, npts, z=0.0):
 
 
 THEORY_KINDS = ["mie", "mie_far", "mie_rad", "layered", "mie_sup", "multi", "mielens", "amielens", "lens", "lens_grid",
-                "lens_uneq", "tmatrix"]
+                "lens_uneq", "tmatrix", "lens_multi", "lens_tm"]
 
 
 def gen_case(rng, tkind, opkind):
     """a point-detector exploration case"""
     optics = gen_optics(rng, tkind)
     mi = optics["mi"]
-    lensy = tkind in ("mielens", "amielens", "lens", "lens_grid", "lens_uneq")
+    lensy = tkind in ("mielens", "amielens", "lens", "lens_grid", "lens_uneq", "lens_multi", "lens_tm")
     if lensy:
         z = rng.choice([1, -1]) * u(rng, 0.5, 8.0)  # above and below the focal plane
     else:
@@ -337,14 +348,20 @@ def gen_case(rng, tkind, opkind):
         # {2 pi j / n} survive (theorem lens_grid_rot): rotations by 2 pi m / n, y -> -y, and x -> -x iff n is even
         n = rng.choice([12, 16]) if opkind == "mir_x" else rng.choice([7, 12, 16])
         theory.update(lens_angle=u(rng, 0.3, 1.0), ntheta=n, nphi=n)
-    if tkind in ("mie_sup", "multi"):
-        scat = gen_cluster(rng, z, mi, nmax=3 if tkind == "multi" else 4)
+    if tkind in ("lens_multi", "lens_tm"):
+        # as lens_grid: few nodes, only the exact symmetries of the node set are asked for
+        n = rng.choice([12, 16]) if opkind == "mir_x" else rng.choice([10, 12, 16])
+        theory.update(lens_angle=u(rng, 0.4, 1.0), ntheta=rng.choice([8, 12]), nphi=n)
+    if tkind in ("mie_sup", "multi", "lens_multi"):
+        scat = gen_cluster(rng, z, mi, nmax=3 if tkind != "mie_sup" else 4)
+        if tkind == "lens_multi" and len(scat["members"]) < 2:
+            scat = gen_cluster(rng, z, mi, nmax=3)
         centre = [sum(m["center"][i] for m in scat["members"]) / len(scat["members"]) for i in range(3)]
     elif tkind == "layered":
         scat = dict(kind="layered", ns=[u(rng, 1.4, 1.5), u(rng, 1.5, 1.7)], ts=[u(rng, 0.2, 0.4), u(rng, 0.1, 0.3)],
                     center=[u(rng, -1.5, 1.5), u(rng, -1.5, 1.5), z])
         centre = scat["center"]
-    elif tkind == "tmatrix":
+    elif tkind in ("tmatrix", "lens_tm"):
         rot = [0.0, u(rng, 0.15, 2.9), u(rng, 0, TWO_PI)]
         c = [u(rng, -1.5, 1.5), u(rng, -1.5, 1.5), z]
         if rng.random() < 0.5:
@@ -371,14 +388,14 @@ def gen_case(rng, tkind, opkind):
     elif opkind == "rot":
         if tkind == "tmatrix":
             a = math.pi
-        elif tkind == "lens_grid":
+        elif tkind in ("lens_grid", "lens_multi", "lens_tm"):
             a = TWO_PI * rng.randint(1, theory["nphi"] - 1) / theory["nphi"]
         else:
             a = u(rng, 0.05, TWO_PI - 0.05)
         op = dict(kind="rot", a=a)
     else:
         op = dict(kind=opkind)
-    return dict(mode="points", theory=theory, scat=scat, det=det, optics=optics, op=op)
+    return dict(mode="points", theory=theory, scat=scat, det=det, optics=optics, op=op, reuse=(rng.random() < 0.5))
 
 
 def gen_grid_case(rng, tkind, mode):
